@@ -331,7 +331,7 @@ func main() {
 	r := ev.Start("C06")
 	defer r.RecoverMain()
 	defer world.Cleanup()
-	r.SetBudget(ev.Pick(r, 120*time.Second, 30*time.Minute))
+	r.SetBudget(ev.Pick(r, 240*time.Second, 30*time.Minute))
 	r.Assume("independent raw dump (own cursor loop, own header reader written from the documentation)", "keys of 1 and 511 bytes; values of 0 B, 1 B, 5 kB (overflow pages) and one 1.5 MB value; 0-2 extension blocks; timestamps {0,1,2^63,2^64-1}")
 	install()
 
